@@ -1255,6 +1255,12 @@ Proof.
      | simpl; apply (sim_tmr_removed s0 c0 (r_rid (t_rec m)) m h HS0); [rewrite Eheap; exact Hp | reflexivity] ]).
 Qed.
 
+(* a timer queue that stays initialised after a refused first registration: same heap *)
+Lemma Good_tmr_inited s : Good s -> Good (tmr_with s (heap (s_tmr s))).
+Proof.
+  intros [c [Hc HS]]. exists c. split; [exact Hc|]. destruct HS. constructor; simpl; auto.
+Qed.
+
 (* ================================================================ one API call *)
 Definition op_norm (o : op) : Prop :=
   match o with OTimerReg _ t _ _ => tv_norm t = true | _ => True end.
@@ -1269,13 +1275,22 @@ Proof.
   - eapply good_imm_cancel; eauto.
   - (* ONetReg *) destruct af as [|af].
     + eapply good_net_reg; eauto.
-    + unfold exec_op in H. cbn [Nat.eqb negb] in H. inversion H; subst. apply Good_neutral; simpl; auto. discriminate.
+    + (* refused: the state the unwinding leaves has the same registrations and readiness bits *)
+      unfold exec_op in H. cbn [Nat.eqb negb] in H. inversion H; subst.
+      apply Good_neutral; [|simpl; auto; discriminate].
+      destruct HG as [c [Hc HS]].
+      destruct (net_register_refused_spec (S af) cb fd opn (next_rid (s_cl s)) (s_net s) (sm_net s c HS)) as [A [B [C _]]].
+      apply good_set_net_views; auto. exists c; auto.
   - eapply good_net_cancel; eauto.
-  - (* OTimerReg *) destruct af as [|[|af]].
+  - (* OTimerReg *) destruct af as [|af].
     + eapply good_timer_reg; eauto.
-    + unfold exec_op in H. cbn [Nat.eqb negb] in H. inversion H; subst. apply Good_neutral; simpl; auto.
-    + unfold exec_op in H. cbn [Nat.eqb negb] in H. destruct (read_clock s) as [now s1] eqn:Ec.
-      inversion H; subst. apply Good_neutral; simpl; auto. eapply read_clock_Good; eauto.
+    + unfold exec_op in H. cbn [Nat.eqb] in H.
+      assert (HG0 : Good (timer_register_refused (S af) s)).
+      { unfold timer_register_refused. destruct (3 <=? S af); [apply Good_tmr_inited|]; exact HG. }
+      destruct (Nat.odd (S af)).
+      * inversion H; subst. apply Good_neutral; simpl; auto.
+      * destruct (read_clock (timer_register_refused (S af) s)) as [now s1] eqn:Ec.
+        inversion H; subst. apply Good_neutral; simpl; auto. eapply read_clock_Good; eauto.
   - eapply good_timer_cancel; eauto.
   - eapply good_timer_reset; eauto.
   - unfold exec_op in H. inversion H; subst. apply Good_neutral; [|exact I].
